@@ -11,7 +11,9 @@
 // bodies / bombs / last-layer parameters, and LZW bodies that drive the code
 // table to every width boundary and to the full state followed by every short tail;
 // plus (jbig2prog.go) every short sequence of well-formed JBIG2 segments with
-// every choice of the referred-to segments.
+// every choice of the referred-to segments, every ordered pair of region /
+// dictionary segments with every value of their coding-parameter bits; and
+// (dctprog.go) progressive JPEG frames followed by scan programs prefix . letter^n.
 // Every case is executed in a single-threaded worker process (engine/procs)
 // because the oracles read process-global counters.
 package c08
@@ -201,11 +203,42 @@ func judge(x *xcase, o *obs) []failure {
 		fs = append(fs, failure{"output-exceeds-geometry:" + kind,
 			fmt.Sprintf("%d bytes produced (capped=%v), the geometry allows %d (%s)", o.produced, o.capped, gc, why)})
 	}
+	// work: a progressive frame whose scans were all accepted (the whole image was
+	// produced without an error) has been walked once per scan; the statement
+	// bounds the time by the input plus the produced output
+	if v, ref, scans, allow, ok := dctWork(x, names, o); ok && v > allow {
+		kind := "first-pass-scans"
+		if 2*ref > v {
+			kind = "refinement-scans"
+		}
+		fs = append(fs, failure{"work-exceeds-input-plus-output:DCT:progressive:" + kind,
+			fmt.Sprintf("all %d scans of a progressive frame were accepted (%d bytes produced, no error); they demand %d block visits (%d by refinement scans), more than one per BIT of input plus output: 8*(%d raw + %d produced) = %d",
+				scans, o.produced, v, ref, len(x.body), o.produced, allow)})
+	}
 	if o.leaked > 0 {
 		fs = append(fs, failure{leakFingerprint(names, o.leakSig),
 			fmt.Sprintf("%d goroutine(s) still there 3 s after Close (chain %s, mode %s): %s", o.leaked, cc, x.mode, o.leakSig)})
 	}
 	return fs
+}
+
+// dctWork returns, for a case whose only filter is DCT and whose body is a
+// single progressive frame that was decoded to the end without an error, the
+// block visits its scans demand (dctScanWork), the part of them in refinement
+// scans, the number of scans, and the allowance: one block visit per bit of raw
+// input plus produced output.
+func dctWork(x *xcase, names []string, o *obs) (visits, refinement int64, scans int, allow int64, ok bool) {
+	if len(names) != 1 || names[0] != "DCTDecode" || x.mode != "drain" || o.err != nil || o.capped || o.stalled || o.produced == 0 {
+		return
+	}
+	visits, refinement, scans, ok = dctScanWorkByKind(x.body)
+	if !ok {
+		return
+	}
+	if w, h, nc, one := jpegClaim(x.body); !one || o.produced != int64(w)*int64(h)*int64(nc) {
+		return 0, 0, 0, 0, false // not the whole image
+	}
+	return visits, refinement, scans, 8 * (int64(len(x.body)) + o.produced), true
 }
 
 func outer(names []string) string {
@@ -324,8 +357,18 @@ func Worker(args []string) int {
 				w.Outcome(x.space + ":alloc-cumulative-above-allowance-live-peak-within")
 			}
 		}
+		if v, _, _, allow, ok := dctWork(x, filterNames(x.dict, x.objs), &o); ok {
+			w.Count("dct_progressive_work_judged", 1) // whole image produced from a progressive frame
+			if 8*v > allow {
+				w.Count("dct_progressive_work_above_an_eighth_of_the_allowance", 1)
+			}
+		}
 		if !x.plain {
-			w.Distinct(procs.HashS(fmt.Sprintf("%s|%s|%s|%v|%x|%d", x.via, x.mode, x.space, x.dict, x.body, len(x.objs))) ^ objsHash(x))
+			if len(x.body) <= 4096 {
+				w.Distinct(procs.HashS(fmt.Sprintf("%s|%s|%s|%v|%x|%d", x.via, x.mode, x.space, x.dict, x.body, len(x.objs))) ^ objsHash(x))
+			} else { // long generated bodies: no hex copy
+				w.Distinct(procs.HashS(fmt.Sprintf("%s|%s|%s|%v|%d", x.via, x.mode, x.space, x.dict, len(x.objs))) ^ objsHash(x) ^ (procs.Hash(x.body) * 0x9e3779b97f4a7c15))
+			}
 		}
 		if w.WantSample() && idx%997 == 3 && len(x.body) <= 4096 {
 			w.Sample(x.toCase())
@@ -405,7 +448,9 @@ func Run(tier string) int {
 		"every /Filter x /DecodeParms shape; every filter sequence of length <= 2 and repeated filters of length 3, 8, 9, each with unmutated and single-mutation bodies; " +
 		"every filter sequence of length 3 with bodies valid for 3 / 2 / 1 leading layers, with bombs encoded once per amplifying layer, and with the parameter menu on the last layer; " +
 		"LZW table-state bodies written by the harness's own code emitter: clear-table code + N filler codes (N around every code-width boundary and around the full table, both EarlyChange values) + every short tail over {top code, top-1, clear, EOD, literal}. " +
-		"JBIG2 segment programs written by the harness's own segment header writer: every sequence of length <= 3 (thorough <= 4) over an alphabet of well-formed segments (page information small/large, immediate and intermediate generic regions 8x8/64x64, immediate and intermediate generic refinement regions, symbol dictionary, immediate and intermediate text region, end of page), and length 4 (5) with a page information segment first, each with every choice of the referred-to segment (none, every segment of the program incl. itself and later ones, a missing one). " +
+		"JBIG2 segment programs written by the harness's own segment header writer: every sequence of length <= 3 (thorough <= 4) over an alphabet of well-formed segments (page information small/large, immediate and intermediate generic regions 8x8/64x64, immediate and intermediate generic refinement regions, symbol dictionary, immediate and intermediate text region, end of page), and length 4 (5) with a page information segment first, each with every choice of the referred-to segment (none, every segment of the program incl. itself and later ones, a missing one); " +
+		"JBIG2 parameter programs: every ordered pair (thorough: also triples of the 8x8 letters behind a page) of region / dictionary segments over the alphabet generic region x {GBTEMPLATE 0..3 x TPGDON, EXTTEMPLATE x TPGDON, MMR}, refinement region x {GRTEMPLATE 0/1 x TPGRON}, symbol dictionary x SDTEMPLATE 0..3, text region, alone and behind each page information segment, with every referred-to choice. " +
+		"DCT scan programs written by the harness's own JPEG writer: a progressive frame (gray 8x8, 256x256, 1024x1024; YCbCr 4:2:0 128x128) followed by prefix . letter^n over an alphabet of scan headers (DC first / refinement interleaved and on component 1, AC first / refinement on component 1 and 2 over the bands 1..63, 1..5, 6..63, 1..1 and two bit positions, with an end-of-band run table that covers the component exactly / one whose run of 16384 blocks carries over into the next scans / a coefficient table) x zero-filled entropy segments of 2 lengths, every prefix of length <= 1 (large frame: 0; thorough: <= 2 on the small gray frames, <= 1 on the others), every letter repeated n times, n in {1, 2, 3, 63..65, 127..129, 256, 1024, 4096} (thorough: +-1 around these multiples too). " +
 		"distinct = distinct (entry point, mode, dictionary, body, object) tuples that differ from an unmutated seed")
 	r.Assume(
 		"deviation bound 1: at most one mutation per case (two coupled fields for width x height claims, two keys for parameter pairs)",
@@ -413,6 +458,7 @@ func Run(tier string) int {
 			"a case above the allowance is re-run with GOGC=10 and the peak growth of the live heap (/gc/heap/live:bytes after every collection, forced collections after construction and before Close) is compared with the same allowance: geometric buffer growth inside the budget allocates ~5x the buffer in total without ever holding it",
 		"the harness stops reading after 64 MiB (272 MiB for CCITT/JBIG2/DCT as outermost filter); stopping there is not an error of the library",
 		"geometry of a mutated JPEG / JBIG2 body is read by the harness's own marker / segment walker; when it does not find exactly one frame / page header only limits.MaxImageBytes is demanded",
+		"work of a progressive JPEG is read from the body by the harness's own marker walker: a scan visits every block of its components once (T.81 A.2, G.1.2), so a body whose scans were ALL accepted (whole image produced, no error) cost at least the sum of these visits; demanded: visits <= 8 * (raw length + bytes produced), one block visit per bit of input plus output (the unchanged decoder stops after 64 passes = one visit per produced byte). No clock is read",
 		"hang = one case running longer than 20 s in a worker, reproduced 5x in isolated processes; crash/OOM (ulimit -v 6 GiB) likewise",
 	)
 
@@ -532,6 +578,9 @@ func selfTest(t *table) string {
 		return msg
 	}
 	if msg := jbig2ProgramSelfTest(); msg != "" {
+		return msg
+	}
+	if msg := dctProgramSelfTest(); msg != "" {
 		return msg
 	}
 	// the case <-> JSON round trip must preserve the case
